@@ -62,6 +62,9 @@ package sema
 //@   option opaquecalls=noop
 //@   requires expression != nil && expression.UnsignedInteger != nil && big(expression.UnsignedInteger) >= 0
 //@   requires targetType != nil && implements(targetType, IntegerRangedType) && !implements(targetType, FractionalRangedType)
+// (the two abstract fixed-point supertypes are integer-ranged types without bounds; they are checked as the type that
+// represents them at run time and have instance contracts of their own above)
+//@   requires targetType != SignedFixedPointType && targetType != FixedPointType
 //@   let v = ite(expression.Negative, -1, 1) * big(expression.UnsignedInteger)
 //@   nofail
 //@   env MemoryMeteringError
